@@ -300,7 +300,11 @@ fn compile_expr(e: &Expr, mut scope: &mut Scope) -> Result<(Vec<Instr>, Reg)> {
                     // if type(left) is None, give it type of right
                     if let Ok(Type::Name(s)) = left.get_type() {
                         let right_type = right.get_type().unwrap();
-                        left = scope.update_type(&s, &right_type)?;
+                        // an untyped right (a name never assigned) has no type to give: copying
+                        // its Type::Name would make later binds of left resolve to right's register
+                        if !matches!(right_type, Type::Name(_)) {
+                            left = scope.update_type(&s, &right_type)?;
+                        }
                     }
 
                     // left must be a mutable register
